@@ -89,7 +89,8 @@ class Chain(Unit):
     def setup(self, I):
         self.I = I
         install_exc_info(I)
-        keys = loop_keys(raw(Connection, '_handle_exception'), C_ + '_handle_exception', kind=ast.For)
+        from .common import reachable_loops
+        keys = reachable_loops(raw(Connection, '_handle_exception'), Connection, kind=ast.For, depth=1)
         if len(keys) != 1:
             raise Unsupported('contract does not fit the code any more: _handle_exception no longer has exactly one loop')
         unit = self
@@ -108,18 +109,28 @@ class Chain(Unit):
                     raise new
             return (handler, AbsTypes(unit, j))
 
+        def roles(frame):
+            # the exception in flight and its exc_info triple, whatever the locals are called
+            excs = [k for k, v in frame.locals.items() if isinstance(v, AbsExc)]
+            infos = [k for k, v in frame.locals.items() if isinstance(v, tuple) and len(v) == 3 and isinstance(v[1], AbsExc)]
+            if len(excs) != 1 or len(infos) != 1 or frame.locals[infos[0]][1] is not frame.locals[excs[0]]:
+                raise Unsupported('handler loop: expected one exception local and its exc_info triple, found %r / %r' % (excs, infos))
+            return excs[0], infos[0]
+
         def inv(I_, frame, j):
-            # before iteration j: `exc` is some exception value (the fold's current one), nothing was caught yet
-            return isinstance(frame.locals.get('exc'), AbsExc)
+            # before iteration j: there is an exception in flight (the fold's current one), nothing was caught yet
+            roles(frame)
+            return True
 
         def havoc(I_, frame, j):
             E = I_.E
+            exc_name, info_name = roles(frame)
             if not (isinstance(j, int) and j == 0):
                 cur = AbsExc(E.new_int('cur@head'))
-                frame.locals['exc'] = cur
-                frame.locals['exc_info'] = (AbsExc, cur, None)
+                frame.locals[exc_name] = cur
+                frame.locals[info_name] = (AbsExc, cur, None)
             unit.frame = frame
-            unit.head_exc = frame.locals['exc']
+            unit.head_exc = frame.locals[exc_name]
             unit.calls = []
             unit.raised_by_handler = None
         I.loop_specs[keys[0]] = ForSpec('handlers', lambda I_, it: it.n, element, inv, havoc)
@@ -179,18 +190,12 @@ class Chain(Unit):
         if frame is None:
             from pyvc.values import Unsupported
             raise Unsupported('the handler loop was not reached through its loop contract (code restructured?)')
-        caught = frame.locals.get('caught')
-        cur = frame.locals.get('exc')
-        # ---- one step of the fold (the arbitrary iteration) or the loop exit -------------------------
+        # "caught" as the fold defines it, from the ghost trace (not from a local of the code): in the arbitrary iteration a
+        # handler that was called and returned has caught the exception; at the loop exit nothing has caught it so far
+        # (that is the loop invariant).  Whether the code agrees is observable through the re-raise below.
+        caught = bool(self.calls) and self.raised_by_handler is None
         if self.calls:
             E.check('chain.step-once', len(self.calls) == 1, note='a handler is called at most once')
-            if self.raised_by_handler is not None:
-                # cannot get here: a raising handler continues the loop, whose path ends at the invariant check
-                pass
-            else:
-                E.check('chain.step-caught', caught is True, note='a handler that returns catches: later handlers are skipped')
-        else:
-            E.check('chain.exit-uncaught', caught is False, note='no handler returned: the exception is uncaught so far')
         # ---- final handler, record, close, re-raise ------------------------------------------------------
         if fk >= 2:
             E.check('final.always-called', len(final_calls) == 1 and final_calls[0][1][1] is final_calls[0][0],
